@@ -78,6 +78,18 @@ func NewLoop(o Options) *Loop {
 	return l
 }
 
+// Relisten stops the current listener and listens again on the same port with
+// other options (second use of the same port object).
+func (l *Loop) Relisten(o Options) {
+	if l.Stop != nil {
+		l.Stop()
+	}
+	l.Got = nil
+	l.Stop, l.Err = midi.ListenTo(l.In, func(m midi.Message, ts int32) {
+		l.Got = append(l.Got, Delivered{Msg: append([]byte(nil), m...), TS: ts})
+	}, o.List()...)
+}
+
 // Send sends one chunk; a panic inside the library is captured.
 func (l *Loop) Send(b []byte) (err error, c engine.Caught) {
 	c = engine.Catch(func() { err = l.Out.Send(b) })
